@@ -9,12 +9,12 @@ from vf.engine.runner import Result
 
 ID = "C06"
 BOUNDS = {
-    "quick": "9 incremental + 2 plain requests x site sets x early execution off/on x stop kind {consumer aclose, abort(None), abort(exception), abort(non-exception value)} inserted at EVERY choice point of EVERY completion order (complete), plus the same runs without a stop and with resolver / source failures; 4 subscription scenarios x stop at every point; component level: consumer close at every choice point of every synthetic work graph (<=2 groups with <=2 tasks, or 1 group + 1 task + 1 stream over 15 scripts) on the real WorkQueue/publisher/StreamItemQueue(capacity 1|2)",
+    "quick": "abort also before execute() is called, from inside any resolver call and between any two loop callbacks; 13 incremental + 2 plain requests x site sets x early execution off/on x stop kind {consumer aclose, abort(None), abort(exception), abort(non-exception value)} inserted at EVERY choice point of EVERY completion order (complete), plus the same runs without a stop and with resolver / source failures; 4 subscription scenarios x stop at every point; component level: consumer close at every choice point of every synthetic work graph (<=2 groups with <=2 tasks, or 1 group + 1 task + 1 stream over 15 scripts) on the real WorkQueue/publisher/StreamItemQueue(capacity 1|2)",
     "thorough": "all 20 C04 requests; early release <=1 before the stop",
 }
 RULE = (
     "crash-point style exploration on the hand-stepped loop: for every schedule of every request one stop action is inserted at every choice "
-    "point (the consumer closes the payload stream, or the abort signal fires with each kind of reason; resolver and source failures come from "
+    "point and - for abort - at every boundary between two loop callbacks, inside every resolver call and before the call of execute() (the consumer closes the payload stream, or the abort signal fires with each kind of reason; resolver and source failures come from "
     "the fault menu). After the stop no resolver or source gate is released, only the consumer's own pulls; the caller must be released with the "
     "result / the abort reason / AbortedGraphQLExecutionError. Then the outside world completes what it had started and at quiescence: no task "
     "started by the execution is pending, every started source iterator was closed exactly once, the work-finished hook ran exactly once and "
